@@ -463,4 +463,30 @@ VARIANTS = [
     {"name": "valueerror-caught-by-director", "rule": "R15.23", "file": DIR, "expect": "error",
      "old": "          except _DirectiveError as e:\n            self._errorlog.invalid_directive(\n                self._filename, comment.line, str(e)\n            )",
      "new": "          except (_DirectiveError, ValueError) as e:\n            self._errorlog.invalid_directive(\n                self._filename, comment.line, str(e)\n            )"},
+    # the list is read through a once-bound local alias (benign/C03-r1)
+    {"name": "twin-benign-C03-r1-lineset-helper", "rule": "R15.23",
+     "patch": "benign/C03-r1/patch.diff", "expect": "silent"},
+    {"name": "twin-transitions-aliased", "rule": "R15.23", "file": DIR, "expect": "silent",
+     "old": "    last = self._transitions[-1] if self._transitions else -1\n",
+     "new": "    transitions = self._transitions\n"
+            "    last = transitions[-1] if transitions else -1\n"},
+    # the alias is of another list / re-bound: `last` is no longer known to be the last
+    # transition, the premise cannot be re-derived -> analysis error, not a pass
+    {"name": "alias-of-another-list", "rule": "R15.23", "file": DIR, "expect": "error",
+     "old": "    last = self._transitions[-1] if self._transitions else -1\n",
+     "new": "    transitions = self._lines\n"
+            "    last = transitions[-1] if transitions else -1\n"},
+    {"name": "alias-rebound", "rule": "R15.23", "file": DIR, "expect": "error",
+     "old": "    last = self._transitions[-1] if self._transitions else -1\n",
+     "new": "    transitions = self._transitions\n"
+            "    transitions = sorted(transitions, reverse=True)\n"
+            "    last = transitions[-1] if transitions else -1\n"},
+    # refactored shape + the seeded order defect
+    {"name": "aliased-transitions-and-director-walks-backwards", "rule": "R15.23",
+     "expect": "fire",
+     "edits": [(DIR, "    last = self._transitions[-1] if self._transitions else -1\n",
+                "    transitions = self._transitions\n"
+                "    last = transitions[-1] if transitions else -1\n"),
+               (DIR, "    for line_range, group in visitor.structured_comment_groups.items():\n      for comment in group:\n        if comment.tool == \"type\":",
+                "    for line_range, group in reversed(visitor.structured_comment_groups.items()):\n      for comment in group:\n        if comment.tool == \"type\":")]},
 ]
